@@ -1,12 +1,488 @@
-//! C05 - not implemented yet
-use crate::common::Report;
+//! C05 - secure truncation stays within its documented error.
+//! Exhaustive on 8-bit types (all inputs of the documented range x all k x all 256 values of the protocol's
+//! mask r, resp. all 256 values of the first input share for the general divisor), boundary-exhaustive on wider types.
+use crate::common::{hash_str, Report};
+use crate::exec::{new_eval, run_global, Oracle, Plan};
+use crate::mpcx::{self, Owner};
+use crate::vals::{self, st_bits, st_mask, st_signed, to_signed};
+use ciphercore_base::data_types::{array_type, ScalarType, Type, INT128, INT16, INT32, INT64, INT8, UINT128, UINT16, UINT32, UINT64, UINT8};
+use ciphercore_base::data_values::Value;
+use ciphercore_base::graphs::{create_context, Context, Operation};
+use ciphercore_base::inline::inline_ops::InlineMode;
+use rayon::prelude::*;
+use serde_json::{json, Value as J};
 
-pub fn run(_r: &Report) -> i32 {
-    println!("MACHINERY-ERROR property=C05 check not implemented");
-    2
+fn trunc_ctx(st: ScalarType, n: u64, scale: u128) -> Context {
+    let c = create_context().unwrap();
+    let g = c.create_graph().unwrap();
+    let x = g.input(array_type(vec![n], st)).unwrap();
+    x.truncate(scale).unwrap().set_as_output().unwrap();
+    g.finalize().unwrap();
+    c.set_main_graph(g).unwrap();
+    c.finalize().unwrap();
+    c
 }
 
-pub fn replay(_r: &Report, _rec: &serde_json::Value) -> i32 {
-    println!("MACHINERY-ERROR property=C05 replay not implemented");
-    2
+/// Scripted tape: the protocol's mask r (the PRF node keyed directly by an unsent Random key) gets `r` in every
+/// element; every other PRF output is filled with a byte pattern.
+struct Tape {
+    r_idx: Option<usize>,
+    r: u128,
+    pattern: u8,
+    counter: u8,
+}
+impl Oracle for Tape {
+    fn prf(&mut self, _p: usize, idx: usize, _k: &[u8], _iv: u64, t: &Type) -> Option<Value> {
+        if Some(idx) == self.r_idx {
+            let st = t.get_scalar_type();
+            let n = vals::num_elems(t);
+            return Some(vals::arr_value(&vec![self.r; n], &st));
+        }
+        let p = self.pattern;
+        match p {
+            0 | 0xFF => Some(vals::pattern_value(t, &mut || p)),
+            _ => {
+                // position dependent pattern, different for each PRF node
+                let mut c = self.counter.wrapping_mul(37).wrapping_add(p);
+                self.counter = self.counter.wrapping_add(1);
+                Some(vals::pattern_value(t, &mut || {
+                    c = c.wrapping_mul(5).wrapping_add(113);
+                    c
+                }))
+            }
+        }
+    }
+}
+
+/// index of the PRF node that draws r in a compiled single-truncation graph (key = Random node used directly)
+fn find_r(plan: &Plan) -> Vec<usize> {
+    plan.nodes
+        .iter()
+        .enumerate()
+        .filter(|(_, n)| matches!(n.op, Operation::PRF(_, _)) && matches!(plan.nodes[n.deps[0]].op, Operation::Random(_)))
+        .map(|(i, _)| i)
+        .collect()
+}
+
+fn floor_div(x: i128, d: i128) -> i128 {
+    let q = x / d;
+    if (x % d != 0) && ((x < 0) != (d < 0)) {
+        q - 1
+    } else {
+        q
+    }
+}
+
+/// centered difference a - b modulo 2^w
+fn cdiff(a: u128, b: u128, st: &ScalarType) -> i128 {
+    let m = st_mask(st);
+    let d = a.wrapping_sub(b) & m;
+    let w = st_bits(st);
+    if w == 128 {
+        d as i128
+    } else if d >> (w - 1) & 1 == 1 {
+        d as i128 - (1i128 << w)
+    } else {
+        d as i128
+    }
+}
+
+/// inputs of the documented range for 8-bit types: all of them
+fn range8(st: &ScalarType) -> Vec<i128> {
+    if st_signed(st) {
+        (-64..64).collect()
+    } else {
+        (0..128).collect()
+    }
+}
+
+fn wide_inputs(st: &ScalarType, k: u32) -> Vec<i128> {
+    let w = st_bits(st);
+    let (lo, hi): (i128, i128) = if st_signed(st) {
+        (-(1i128 << (w - 2)), (1i128 << (w - 2)) - 1)
+    } else {
+        (0, ((1u128 << (w - 1)) - 1) as i128)
+    };
+    let p = 1i128 << k;
+    let mut v = vec![lo, lo + 1, lo.saturating_add(p - 1), lo.saturating_add(p), lo.saturating_add(p).saturating_add(1), (-p).saturating_sub(1), -p, -p + 1, -1, 0, 1, p - 1, p, p + 1, p.saturating_mul(2).saturating_sub(1), p.saturating_mul(3).saturating_add(1), hi.saturating_sub(p), hi.saturating_sub(p - 1), hi - 1, hi,
+        hi / 3, lo / 3, 0x5555_5555_5555_5555_5555_5555_5555_5555i128 & hi];
+    v.retain(|x| *x >= lo && *x <= hi);
+    v.sort();
+    v.dedup();
+    v
+}
+
+fn wide_r(st: &ScalarType, k: u32) -> Vec<u128> {
+    let w = st_bits(st);
+    let m = st_mask(st);
+    let mut v = vec![0u128, 1, (1u128 << k) - 1, 1u128 << k, (1u128 << (w - 1)) - 1, 1u128 << (w - 1), m, m - 1,
+        0x5555_5555_5555_5555_5555_5555_5555_5555 & m, 0xAAAA_AAAA_AAAA_AAAA_AAAA_AAAA_AAAA_AAAA & m, (m >> 1) ^ ((1u128 << k) - 1)];
+    v.sort();
+    v.dedup();
+    v
+}
+
+struct Cfg {
+    st: ScalarType,
+    k: u32,
+    owner: Owner,
+    outs: Vec<u8>,
+    inputs: Vec<i128>,
+    rs: Vec<u128>,
+    patterns: Vec<u8>,
+    three: bool,
+}
+
+fn run_2k(r: &Report, cfg: &Cfg) {
+    let n = cfg.inputs.len() as u64;
+    let ctx = trunc_ctx(cfg.st, n, 1u128 << cfg.k);
+    let t = array_type(vec![n], cfg.st);
+    let compiled = match mpcx::compile(&ctx, &[cfg.owner], &cfg.outs, &InlineMode::Simple) {
+        Ok(c) => c,
+        Err(e) => {
+            r.violation(&format!("C05:2k:compile:{}", cfg.st), &format!("compile failed: {}", e), json!({"kind": "2k-compile", "st": format!("{}", cfg.st), "k": cfg.k}));
+            return;
+        }
+    };
+    let plan = Plan::of_context(&compiled).unwrap();
+    let public = cfg.owner == Owner::Public;
+    let r_nodes = find_r(&plan);
+    if !public && r_nodes.len() != 1 {
+        println!("MACHINERY-ERROR C05: expected exactly one mask node r, found {}", r_nodes.len());
+        std::process::exit(2);
+    }
+    let m = st_mask(&cfg.st);
+    let xs: Vec<u128> = cfg.inputs.iter().map(|x| (*x as u128) & m).collect();
+    let xv = vals::arr_value(&xs, &cfg.st);
+    r.distinct(hash_str(&format!("2k{}{}{:?}{:?}", cfg.st, cfg.k, cfg.owner, cfg.outs)));
+    let mut plus_one = vec![0u64; xs.len()];
+    for pat in cfg.patterns.iter() {
+        for rv in cfg.rs.iter() {
+            let mut tape = Tape { r_idx: r_nodes.first().cloned(), r: *rv, pattern: *pat, counter: 0 };
+            let mut sb = *pat;
+            let mut share_bytes = || {
+                sb = sb.wrapping_mul(13).wrapping_add(7);
+                sb
+            };
+            let out: Result<Vec<u128>, String> = if !cfg.three {
+                let gi = mpcx::global_inputs(&[t.clone()], &[cfg.owner], &[xv.clone()], &mut share_bytes);
+                let mut ev = new_eval(3);
+                match run_global(&plan, &gi, &mut ev, &mut tape) {
+                    Ok(vs) => reveal(&vs[plan.output], &t, &cfg.outs),
+                    Err((i, e)) => Err(format!("node {}: {}", i, e)),
+                }
+            } else {
+                let mut junk = || 0xC3u8;
+                let pi = mpcx::party_inputs(&[t.clone()], &[cfg.owner], &[xv.clone()], &mut share_bytes, &mut junk);
+                let run = mpcx::eval_compiled_three(&plan, &pi, [3, 4, 5], &mut tape);
+                r.count("three_party_runs", 1);
+                three_reveal(&plan, &run, &t, &cfg.outs)
+            };
+            r.count("evaluations", xs.len() as u64);
+            r.count("graph_executions", 1);
+            let out = match out {
+                Ok(o) => o,
+                Err(e) => {
+                    r.violation(&format!("C05:2k:exec-error:{}", if cfg.three { "three" } else { "global" }), &e,
+                        case_json(cfg, *rv, *pat, None));
+                    continue;
+                }
+            };
+            for (i, x) in cfg.inputs.iter().enumerate() {
+                let want = if public {
+                    // plaintext truncation (toward zero for signed types)
+                    ((*x / (1i128 << cfg.k)) as u128) & m
+                } else {
+                    (floor_div(*x, 1i128 << cfg.k) as u128) & m
+                };
+                let d = cdiff(out[i], want, &cfg.st);
+                let ok = if public { d == 0 } else { d == 0 || d == 1 };
+                if d == 1 {
+                    plus_one[i] += 1;
+                }
+                if !ok {
+                    let kind = if public { "public-not-exact" } else { "error-outside-{0,1}" };
+                    r.violation(
+                        &format!("C05:2k:{}:{}", kind, if st_signed(&cfg.st) { "signed" } else { "unsigned" }),
+                        &format!("Truncate(2^{}) of {} {} (owner {}, outs {:?}, r={}, pattern {:#x}, {}): got {} want {}{}",
+                            cfg.k, cfg.st, x, cfg.owner.name(), cfg.outs, rv, pat, if cfg.three { "three-party" } else { "global" },
+                            to_signed(out[i], &cfg.st), to_signed(want, &cfg.st), if public { "" } else { " or +1" }),
+                        case_json(cfg, *rv, *pat, Some(*x)),
+                    );
+                }
+            }
+        }
+    }
+    // documented bias (information only): over all values of r the "+1" outcome occurs (x mod 2^k) * |R| / 2^k times
+    if !public && cfg.rs.len() == 256 && r.want_sample() {
+        let i = cfg.inputs.len() / 2 + 1;
+        r.sample(json!({"kind": "2k", "type": format!("{}", cfg.st), "k": cfg.k, "owner": cfg.owner.name(), "outs": cfg.outs,
+            "input": cfg.inputs[i].to_string(), "plus_one_outcomes_over_all_r_and_patterns": plus_one[i],
+            "documented": format!("(x mod 2^k)/2^k of {} runs = {}", 256 * cfg.patterns.len(), (cfg.inputs[i].rem_euclid(1 << cfg.k)) as u64 * 256 * cfg.patterns.len() as u64 >> cfg.k)}));
+    }
+}
+
+fn case_json(cfg: &Cfg, rv: u128, pat: u8, x: Option<i128>) -> J {
+    json!({"kind": "2k", "st": format!("{}", cfg.st), "k": cfg.k, "owner": cfg.owner.name(), "outs": cfg.outs,
+        "inputs": cfg.inputs.iter().map(|x| x.to_string()).collect::<Vec<_>>(), "r": rv.to_string(), "pattern": pat, "three": cfg.three,
+        "x": x.map(|v| v.to_string())})
+}
+
+fn reveal(out: &Value, t: &Type, outs: &[u8]) -> Result<Vec<u128>, String> {
+    if outs.is_empty() {
+        let s = out.to_vector().map_err(|e| e.to_string())?;
+        let sum = vals::add_values(&vals::add_values(&s[0], &s[1], t).ok_or("bad share")?, &s[2], t).ok_or("bad share")?;
+        vals::arr_elems(&sum, t).ok_or_else(|| "bad layout".to_string())
+    } else {
+        vals::arr_elems(out, t).ok_or_else(|| "bad layout".to_string())
+    }
+}
+
+fn three_reveal(plan: &Plan, run: &crate::exec::ThreeRun, t: &Type, outs: &[u8]) -> Result<Vec<u128>, String> {
+    let o = plan.output;
+    if outs.is_empty() {
+        let mut own = vec![];
+        for p in 0..3 {
+            let mine = run.vals[p][o].part(p).val().ok_or(format!("party {} cannot compute its share", p))?;
+            let next = run.vals[p][o].part((p + 1) % 3).val().ok_or(format!("party {} cannot compute share {}", p, (p + 1) % 3))?;
+            own.push((mine, next));
+        }
+        for p in 0..3 {
+            if own[p].1 != own[(p + 1) % 3].0 {
+                return Err(format!("party {}'s copy of share {} differs from its owner's", p, (p + 1) % 3));
+            }
+        }
+        let sum = vals::add_values(&vals::add_values(&own[0].0, &own[1].0, t).unwrap(), &own[2].0, t).unwrap();
+        vals::arr_elems(&sum, t).ok_or_else(|| "bad layout".to_string())
+    } else {
+        let mut res: Option<Vec<u128>> = None;
+        for p in outs {
+            let v = run.vals[*p as usize][o].val().ok_or(format!("output party {} cannot compute the output", p))?;
+            let e = vals::arr_elems(&v, t).ok_or("bad layout")?;
+            if let Some(prev) = &res {
+                if *prev != e {
+                    return Err("output parties hold different results".into());
+                }
+            }
+            res = Some(e);
+        }
+        Ok(res.unwrap())
+    }
+}
+
+/// General (non power of two) divisor on signed types: shared input, first share enumerated.
+fn run_general(r: &Report, st: ScalarType, scale: u128, inputs: &[i128], s0s: &[u128], outs: &[u8], owner: Owner) {
+    let n = inputs.len() as u64;
+    let ctx = trunc_ctx(st, n, scale);
+    let t = array_type(vec![n], st);
+    let compiled = match mpcx::compile(&ctx, &[owner], outs, &InlineMode::Simple) {
+        Ok(c) => c,
+        Err(e) => {
+            r.violation(&format!("C05:general:compile:{}", st), &format!("compile failed: {}", e), json!({"kind": "general-compile", "scale": scale.to_string()}));
+            return;
+        }
+    };
+    let plan = Plan::of_context(&compiled).unwrap();
+    let m = st_mask(&st);
+    let w = st_bits(&st);
+    let xs: Vec<u128> = inputs.iter().map(|x| (*x as u128) & m).collect();
+    let public = owner == Owner::Public;
+    r.distinct(hash_str(&format!("gen{}{}{:?}{:?}", st, scale, owner, outs)));
+    let mut wraps = vec![0u64; xs.len()];
+    let modulus_over_scale = if w == 128 { (u128::MAX / scale) as f64 } else { ((1u128 << w) as f64) / (scale as f64) };
+    for pat in [0u8, 0x6B] {
+        for s0 in s0s.iter() {
+            let mut tape = Tape { r_idx: None, r: 0, pattern: pat, counter: 0 };
+            let gi: Vec<Value> = if owner == Owner::Shared {
+                // shares: s0 (same in every element), s1 = pattern, s2 = x - s0 - s1
+                let s1: Vec<u128> = (0..xs.len()).map(|i| (pat as u128).wrapping_mul(i as u128 + 3) & m).collect();
+                let s2: Vec<u128> = xs.iter().zip(s1.iter()).map(|(x, b)| x.wrapping_sub(*s0).wrapping_sub(*b) & m).collect();
+                vec![Value::from_vector(vec![vals::arr_value(&vec![*s0; xs.len()], &st), vals::arr_value(&s1, &st), vals::arr_value(&s2, &st)])]
+            } else {
+                vec![vals::arr_value(&xs, &st)]
+            };
+            let mut ev = new_eval(9u64.wrapping_add(*s0 as u64));
+            let out = match run_global(&plan, &gi, &mut ev, &mut tape) {
+                Ok(vs) => reveal(&vs[plan.output], &t, outs),
+                Err((i, e)) => Err(format!("node {}: {}", i, e)),
+            };
+            r.count("evaluations", xs.len() as u64);
+            r.count("graph_executions", 1);
+            let out = match out {
+                Ok(o) => o,
+                Err(e) => {
+                    r.violation("C05:general:exec-error", &e, json!({"kind": "general", "scale": scale.to_string(), "s0": s0.to_string()}));
+                    continue;
+                }
+            };
+            for (i, x) in inputs.iter().enumerate() {
+                let q = ((*x / scale as i128) as u128) & m;
+                let d = cdiff(out[i], q, &st);
+                let normal = (-1..=1).contains(&d);
+                // wrap-around form: T(a)+T(b) with a+b = x +- 2^w differs from (x +- 2^w)/scale by the three fractional parts, i.e. by less than 3
+                let wrap = ((d as f64) - modulus_over_scale).abs() < 3.0 || ((d as f64) + modulus_over_scale).abs() < 3.0;
+                if public {
+                    if d != 0 {
+                        r.violation("C05:general:public-not-exact", &format!("Truncate({}) of public {} {}: got {} want {}", scale, st, x, to_signed(out[i], &st), to_signed(q, &st)),
+                            json!({"kind": "general", "scale": scale.to_string(), "x": x.to_string()}));
+                    }
+                    continue;
+                }
+                if !normal {
+                    wraps[i] += 1;
+                }
+                if !(normal || wrap) {
+                    r.violation(
+                        &format!("C05:general:error-outside-documented:{}", st),
+                        &format!("Truncate({}) of {} {} with first share {} (owner {}): got {} want {} +-1 (or the wrap-around form +-2^{}/{})",
+                            scale, st, x, s0, owner.name(), to_signed(out[i], &st), to_signed(q, &st), w, scale),
+                        json!({"kind": "general", "st": format!("{}", st), "scale": scale.to_string(), "x": x.to_string(), "s0": s0.to_string(), "pattern": pat, "owner": owner.name(), "outs": outs,
+                               "inputs": inputs.iter().map(|x| x.to_string()).collect::<Vec<_>>()}),
+                    );
+                }
+            }
+        }
+    }
+    // documented probability of the wrap-around event: (|x|-1)/2^w for x<0, (x+1)/2^w for x>=0; with the first share
+    // enumerated over all 2^w values and 2 patterns this is a count bound
+    if owner == Owner::Shared && s0s.len() == 256 && w == 8 {
+        for (i, x) in inputs.iter().enumerate() {
+            let bound = 2 * (x.unsigned_abs() as u64 + 1);
+            r.count("wraparound_events", wraps[i]);
+            if wraps[i] > bound {
+                r.violation(
+                    "C05:general:wraparound-more-frequent-than-documented",
+                    &format!("Truncate({}) of i8 {}: wrap-around form on {} of 512 (share, pattern) tapes, documented at most {}", scale, x, wraps[i], bound),
+                    json!({"kind": "general-count", "scale": scale.to_string(), "x": x.to_string()}),
+                );
+            }
+        }
+    }
+}
+
+pub fn run(r: &Report) -> i32 {
+    let thorough = r.tier.thorough();
+    // ---- power of two, 8-bit exhaustive ----
+    let mut cfgs: Vec<Cfg> = vec![];
+    let all_r: Vec<u128> = (0..256).collect();
+    for st in [INT8, UINT8] {
+        let ks: Vec<u32> = (1..=6).collect();
+        for k in ks {
+            let confs: Vec<(Owner, Vec<u8>, bool)> = if thorough {
+                let mut v = vec![];
+                for o in [Owner::P(0), Owner::P(1), Owner::P(2), Owner::Shared] {
+                    for outs in [vec![0u8], vec![0, 1, 2], vec![]] {
+                        v.push((o, outs.clone(), false));
+                    }
+                }
+                v.push((Owner::P(1), vec![2], true));
+                v.push((Owner::Shared, vec![], true));
+                v.push((Owner::P(2), vec![0, 1], true));
+                v
+            } else {
+                vec![(Owner::P(0), vec![1], false), (Owner::Shared, vec![], false), (Owner::P(2), vec![0, 1, 2], false), (Owner::P(1), vec![0], false), (Owner::P(1), vec![], true), (Owner::Shared, vec![2], true)]
+            };
+            for (o, outs, three) in confs {
+                cfgs.push(Cfg { st, k, owner: o, outs, inputs: range8(&st), rs: all_r.clone(), patterns: if three { vec![0] } else if thorough { vec![0, 0xFF, 0x35, 0x9C] } else { vec![0, 0x35, 0xFF] }, three });
+            }
+            cfgs.push(Cfg { st, k, owner: Owner::Public, outs: vec![0], inputs: if st_signed(&st) { (-128..128).collect() } else { (0..256).collect() }, rs: vec![0], patterns: vec![0], three: false });
+        }
+    }
+    // ---- power of two, wider types, boundary alphabets ----
+    let wide: Vec<ScalarType> = if thorough { vec![INT16, UINT16, INT32, UINT32, INT64, UINT64, INT128, UINT128] } else { vec![INT16, UINT32, INT64, UINT128] };
+    for st in wide {
+        let w = st_bits(&st);
+        let ks: Vec<u32> = if thorough { (1..=w - 2).collect() } else { vec![1, 2, w / 2 - 1, w / 2, w - 3, w - 2] };
+        for k in ks {
+            cfgs.push(Cfg { st, k, owner: Owner::P(0), outs: vec![1], inputs: wide_inputs(&st, k), rs: wide_r(&st, k), patterns: vec![0, 0x35], three: false });
+            if thorough {
+                cfgs.push(Cfg { st, k, owner: Owner::Shared, outs: vec![], inputs: wide_inputs(&st, k), rs: wide_r(&st, k), patterns: vec![0xFF], three: false });
+            }
+            cfgs.push(Cfg { st, k, owner: Owner::Public, outs: vec![0], inputs: wide_inputs(&st, k), rs: vec![0], patterns: vec![0], three: false });
+        }
+    }
+    r.count("configurations_2k", cfgs.len() as u64);
+    cfgs.par_iter().for_each(|c| run_2k(r, c));
+
+    // ---- general divisor ----
+    let scales8: Vec<u128> = if thorough { (3..=127).filter(|s: &u128| !s.is_power_of_two()).collect() } else { vec![3, 5, 10, 100] };
+    let all_s0: Vec<u128> = (0..256).collect();
+    let in8: Vec<i128> = (-64..64).collect();
+    scales8.par_iter().for_each(|s| {
+        run_general(r, INT8, *s, &in8, &all_s0, &[0], Owner::Shared);
+        run_general(r, INT8, *s, &(-128..128).collect::<Vec<i128>>(), &[0], &[0], Owner::Public);
+    });
+    r.count("configurations_general", scales8.len() as u64 * 2);
+    let wide_scales: Vec<(ScalarType, u128)> = vec![(INT16, 3), (INT16, 1000), (INT32, 10), (INT32, 1_000_003), (INT64, 3), (INT64, 10_000_000_007), (INT128, 1_000_000_007), (INT128, 3)];
+    wide_scales.par_iter().for_each(|(st, s)| {
+        let small: Vec<i128> = vec![-1000, -(*s as i128) - 1, -(*s as i128), -(*s as i128) + 1, -2, -1, 0, 1, 2, *s as i128 - 1, *s as i128, *s as i128 + 1, 1000, 12345];
+        let w = st_bits(st);
+        let lim = 1i128 << (w.min(120) - 2);
+        let small: Vec<i128> = small.into_iter().filter(|x| x.abs() < lim).collect();
+        let m = st_mask(st);
+        let s0s: Vec<u128> = vec![0, 1, m, m >> 1, (m >> 1) + 1, 12345 & m, m - 7, m / 3, (m / 3) * 2];
+        for o in [Owner::Shared, Owner::P(1)] {
+            run_general(r, *st, *s, &small, &s0s, &[2], o);
+        }
+        run_general(r, *st, *s, &small, &[0], &[2], Owner::Public);
+    });
+    r.finish(
+        "exploration",
+        "power-of-two divisor: i8/u8 - all inputs of the documented range x k x all 256 values of the protocol mask r (scripted PRF entry) x byte patterns for the other PRF entries x owner/output configurations, global and three-party execution, oracle result - floor(x/2^k) in {0,1}; wider types (16..128 bit) - boundary alphabets for inputs and r, k from 1 to w-2. general divisor: i8 - all inputs x all 256 values of the first input share x 2 patterns x scales, oracle q+{-1,0,1} or the documented wrap-around form, and its frequency <= documented; wider types boundary alphabets. public inputs: exact. evaluations = (input element, tape) pairs; distinct = (type, divisor, owner, outputs) configurations",
+        true,
+        &["the scripted PRF answers model the PRF as an arbitrary function (every value of the mask r is enumerated for 8-bit types)", "wider types are boundary-exhaustive only"],
+        &["evaluations", "graph_executions", "three_party_runs", "configurations_2k", "configurations_general"],
+    )
+}
+
+pub fn replay(_r: &Report, rec: &J) -> i32 {
+    let case = &rec["case"];
+    let rr = Report::new("C05", crate::common::Tier::Quick, 0);
+    let parse_st = |s: &str| -> ScalarType {
+        for st in vals::ALL_ST {
+            if format!("{}", st) == s {
+                return st;
+            }
+        }
+        INT8
+    };
+    let owner = |s: &str| match s {
+        "P0" => Owner::P(0),
+        "P1" => Owner::P(1),
+        "P2" => Owner::P(2),
+        "pub" => Owner::Public,
+        _ => Owner::Shared,
+    };
+    let outs: Vec<u8> = case["outs"].as_array().map(|a| a.iter().map(|x| x.as_u64().unwrap() as u8).collect()).unwrap_or_default();
+    let inputs: Vec<i128> = case["inputs"].as_array().map(|a| a.iter().map(|x| x.as_str().unwrap().parse().unwrap()).collect()).unwrap_or_default();
+    match case["kind"].as_str().unwrap_or("") {
+        "2k" => {
+            let cfg = Cfg {
+                st: parse_st(case["st"].as_str().unwrap()),
+                k: case["k"].as_u64().unwrap() as u32,
+                owner: owner(case["owner"].as_str().unwrap()),
+                outs,
+                inputs,
+                rs: vec![case["r"].as_str().unwrap().parse().unwrap()],
+                patterns: vec![case["pattern"].as_u64().unwrap() as u8],
+                three: case["three"].as_bool().unwrap_or(false),
+            };
+            run_2k(&rr, &cfg);
+        }
+        "general" => {
+            let st = parse_st(case["st"].as_str().unwrap_or("i8"));
+            run_general(&rr, st, case["scale"].as_str().unwrap().parse().unwrap(), &inputs, &[case["s0"].as_str().unwrap().parse().unwrap()], &outs, owner(case["owner"].as_str().unwrap_or("shared")));
+        }
+        _ => {
+            println!("this case kind is re-established by re-running the check");
+            return 2;
+        }
+    }
+    if rr.n_violation_signatures() > 0 {
+        println!("violation reproduces");
+        1
+    } else {
+        println!("violation does not reproduce");
+        0
+    }
 }
